@@ -1012,7 +1012,7 @@ class LuaASTEchoWriter(BaseLuaWriter):
         yield self._get_name(node, node.name)
 
     def _walk_VarIndex(self, node):
-        for t in self._walk(node.exp_prefix):
+        for t in self._walk_exp_prefix(node):
             yield t
         yield self._get_text(node, b'[')
         self._indent += 1
@@ -1022,7 +1022,7 @@ class LuaASTEchoWriter(BaseLuaWriter):
         yield self._get_text(node, b']')
 
     def _walk_VarAttribute(self, node):
-        for t in self._walk(node.exp_prefix):
+        for t in self._walk_exp_prefix(node):
             yield t
         yield self._get_text(node, b'.')
         yield self._get_name(node, node.attr_name)
@@ -1056,7 +1056,11 @@ class LuaASTEchoWriter(BaseLuaWriter):
                 in_parens = True
                 self._indent += 1
         else:
-            if self._tokens[self._pos].matches(lexer.TokSymbol(b'(')):
+            # An expression as the value of an ExpValue was written in
+            # parentheses. (Looking for a '(' token is not enough: the value
+            # itself may start with one, as in (a).b or ("x"):rep(2).)
+            if self._is_exp(node.value):
+                assert self._tokens[self._pos].matches(lexer.TokSymbol(b'('))
                 yield b'('
                 in_parens = True
                 self._pos += 1
@@ -1084,6 +1088,28 @@ class LuaASTEchoWriter(BaseLuaWriter):
             self._indent -= 1
             yield self._get_text(node, b')')
 
+    def _is_exp(self, node):
+        return isinstance(node, (parser.ExpValue, parser.ExpBinOp,
+                                 parser.ExpUnOp, parser.VarargDots))
+
+    def _walk_exp_prefix(self, node):
+        """Walks the prefix of a call, index or attribute node.
+
+        The parser stores a parenthesized prefix such as (f or g) as the bare
+        expression, so the parentheses are written here.
+        """
+        if (self._is_exp(node.exp_prefix) and
+                not self._args.get('ignore_tokens')):
+            yield self._get_text(node, b'(')
+            self._indent += 1
+            for t in self._walk(node.exp_prefix):
+                yield t
+            self._indent -= 1
+            yield self._get_text(node, b')')
+        else:
+            for t in self._walk(node.exp_prefix):
+                yield t
+
     def _walk_VarargDots(self, node):
         yield self._get_text(node, b'...')
 
@@ -1100,7 +1126,7 @@ class LuaASTEchoWriter(BaseLuaWriter):
             yield t
 
     def _walk_FunctionCall(self, node):
-        for t in self._walk(node.exp_prefix):
+        for t in self._walk_exp_prefix(node):
             yield t
         if node.args is None:
             yield self._get_text(node, b'(')
@@ -1115,7 +1141,7 @@ class LuaASTEchoWriter(BaseLuaWriter):
                 yield t
 
     def _walk_FunctionCallMethod(self, node):
-        for t in self._walk(node.exp_prefix):
+        for t in self._walk_exp_prefix(node):
             yield t
         yield self._get_text(node, b':')
         yield self._get_name(node, node.methodname)
